@@ -48,6 +48,7 @@ package zlint
 //@   loop 1 invariant z.ErrorsPresent   == certFlag(z, g.retLints, k, lint.Error)
 //@   loop 1 invariant z.FatalsPresent   == certFlag(z, g.retLints, k, lint.Fatal)
 //@   loop 1 invariant [C07] g.nRun == k && certRan(z, g.retLints, o, g.bseqRun, k)
+//@   ensures g.recvLints == registry.CertificateLints()
 //@   ensures g.nLints == 1 && certDone(z, g.retLints, len(g.retLints))
 //@   ensures z.NoticesPresent  == certFlag(z, g.retLints, len(g.retLints), lint.Notice)
 //@   ensures z.WarningsPresent == certFlag(z, g.retLints, len(g.retLints), lint.Warn)
@@ -77,6 +78,7 @@ package zlint
 //@   loop 1 invariant z.ErrorsPresent   == crlFlag(z, g.retCrlLints, k, lint.Error)
 //@   loop 1 invariant z.FatalsPresent   == crlFlag(z, g.retCrlLints, k, lint.Fatal)
 //@   loop 1 invariant [C07] g.nCrlRun == k && crlRan(z, g.retCrlLints, o, g.bseqCrlRun, k)
+//@   ensures g.recvCrlLints == registry.RevocationListLints()
 //@   ensures g.nCrlLints == 1 && crlDone(z, g.retCrlLints, len(g.retCrlLints))
 //@   ensures z.NoticesPresent  == crlFlag(z, g.retCrlLints, len(g.retCrlLints), lint.Notice)
 //@   ensures z.WarningsPresent == crlFlag(z, g.retCrlLints, len(g.retCrlLints), lint.Warn)
@@ -106,6 +108,7 @@ package zlint
 //@   loop 1 invariant z.ErrorsPresent   == ocspFlag(z, g.retOcspLints, k, lint.Error)
 //@   loop 1 invariant z.FatalsPresent   == ocspFlag(z, g.retOcspLints, k, lint.Fatal)
 //@   loop 1 invariant [C07] g.nOcspRun == k && ocspRan(z, g.retOcspLints, o, g.bseqOcspRun, k)
+//@   ensures g.recvOcspLints == registry.OcspResponseLints()
 //@   ensures g.nOcspLints == 1 && ocspDone(z, g.retOcspLints, len(g.retOcspLints))
 //@   ensures z.NoticesPresent  == ocspFlag(z, g.retOcspLints, len(g.retOcspLints), lint.Notice)
 //@   ensures z.WarningsPresent == ocspFlag(z, g.retOcspLints, len(g.retOcspLints), lint.Warn)
@@ -217,3 +220,7 @@ package zlint
 //@          all(n, string, implies(indom(F.ocspResponseLints.lintsByName, n), indom(zf.Results, n))) &&
 //@          forall(s, 4, 8, implies(ocspFlag(zf, F.ocspResponseLints.lints, len(F.ocspResponseLints.lints), lint.LintStatus(s)),
 //@                                  ocspFlag(z, r.ocspResponseLints.lints, len(r.ocspResponseLints.lints), lint.LintStatus(s)))))
+
+// what the command-line tool calls (C15)
+//@ trace func LintCertificateEx as LintC
+//@ trace func LintRevocationListEx as LintR
